@@ -8,7 +8,7 @@ Sigma == {SP, QUOTE, BS, HASH, EQ, DOLLAR, 110, 97, TAB, LF, 233}
 Strs == UNION { [1..k -> Sigma] : k \in 0..AL }
 Inss == { [label |-> l, out |-> o, cmd |-> <<99, 109>>, args |-> a] : l \in {None, <<76>>}, o \in {None, <<111>>}, a \in {<<>>, <<<<97, SP>>>>} }
 VARIABLE m
-Init == m \in { [kind |-> k, ins |-> i, a |-> a, x |-> x] : k \in MalformedKinds, i \in Inss, a \in Strs, x \in BadEscLetters }
+Init == m \in UNION { { [kind |-> k, ins |-> i, a |-> a, x |-> x] : i \in Inss, a \in Strs, x \in XSet(k) } : k \in MalformedKinds }
 Next == UNCHANGED m
 Spec == Init /\ [][Next]_m
 Bad == Malformed(m.kind, m.ins, m.a, m.x)
